@@ -283,6 +283,23 @@ class Dataflow:
             return None
         st = dict(st)
         st[e] = new
+        # `x?`: ControlFlow::Continue (0) iff x is Some / Ok, Break (1) iff None / Err
+        if k == "disc" and not e[1][1] and new[0] == "in" and len(new[1]) == 1:
+            l = e[1][0]
+            sd = self.b.single_def(l) if (l > self.b.argc or l == 0) else None
+            if sd and sd[0] == "call" and sd[2].callee.get("def") == "core::ops::try_trait::Try::branch" and sd[2].args and sd[2].args[0][0] in ("c", "m"):
+                sti = sd[2].callee.get("self_ty")
+                sty = self.b.ty(sti) if sti is not None else ""
+                cf = next(iter(new[1]))
+                want = None
+                if sty.startswith("core::option::Option<"):
+                    want = 1 if cf == 0 else 0
+                elif sty.startswith("core::result::Result<"):
+                    want = 0 if cf == 0 else 1
+                if want is not None and cf in (0, 1):
+                    target = self.disc_root(self.canon.path(sd[2].args[0][1]))
+                    if ("disc", target) != e:
+                        return self.restrict(st, ("disc", target), ("in", frozenset([want])))
         # the result of x.is_some() / is_none() / is_ok() / is_err() says which variant x is
         if k == "call" and new[0] == "in" and len(new[1]) == 1:
             t = self.b.term(e[1])
@@ -402,6 +419,13 @@ class Dataflow:
                 ns = self.kill_call(st, bb)
                 dest = t[3]
                 ns = self.kill_path(ns, self.canon.path(dest) if dest[1] else (dest[0], ()))
+                if t[1].get("def") == "core::ops::try_trait::FromResidual::from_residual":
+                    # the early return of `?`: always the None / Err variant of the function's return type
+                    dty = self.b.local_ty(dest[0]) if not dest[1] else ""
+                    v = 0 if dty.startswith("core::option::Option<") else 1 if dty.startswith("core::result::Result<") else None
+                    if v is not None:
+                        ns = dict(ns)
+                        ns[("disc", (dest[0], ()))] = ("in", frozenset([v]))
                 yield t[4], ns
         elif k == "yield":
             ns = self.kill_path(st, (t[3][0], ()))
